@@ -17,6 +17,7 @@ def variant(rng, f, flags):
 
 class Prop(BaseProp):
     id = "C10"
+    both_profiles = True      # the resegmented-* cases also run in the release-like profile (thorough tier): there K2 shows as lost records
     groups = ["HashConsts", "ShardLayout", "ShardFacts", "CrashFacts"]
     prop_file = "Props/C10.v"
     trusted_base = [
@@ -145,7 +146,7 @@ class Prop(BaseProp):
                     rb = variant(rng, sg.gen_file(rng, key, nb, cb, flags=0), y)
                     ops = [sg.fmt_cas(c) for c in ca] + [sg.fmt_file(f) for f in fa + [ra]] + ["=="] + [sg.fmt_cas(c) for c in cb] + [sg.fmt_file(f) for f in fb + [rb]]
                     rcases.append({"id": "g%d" % len(rcases), "text": " | ".join(ops), "meta": {"kind": "resegmented-%d-%d" % (FL.index(x), FL.index(y)), "na": 3, "nb": 3}})
-        return [{"name": "c10", "cases": cases}, {"name": "c10c", "cases": ccases, "model": False}, {"name": "c10", "cases": rcases, "model": False}]
+        return [{"name": "c10", "cases": cases}, {"name": "c10c", "cases": ccases, "model": False}, {"name": "c10", "cases": rcases, "model": False, "both_profiles": True}]
 
     def known_match(self, failure, known):
         if failure["kind"] != "oracle":
